@@ -263,29 +263,56 @@ pub fn gen_c12(tier: &str, seed: u64, out: &mut Vec<String>) {
     let mut rng = Rng::new(seed ^ 0xC12);
     let n = if tier == "thorough" { 3000 } else { 300 };
     let outcomes = ["unhandled", "unhandled", "handled", "stop", "stophandled", "error"];
-    for _ in 0..n {
-        // program: a few nops / movs / incs / int3 / syscall, ends at code end or by a hook
-        let plen = 2 + rng.below(5) as usize;
+    for case in 0..n {
+        // two program families: straight-line code that ends at the code end or by a hook, and call/ret code on an
+        // initialised stack that ends through a top-level RET (the finishing instruction still has after-hooks)
+        let callret = case % 3 == 2;
         let mut prog = vec![];
-        for _ in 0..plen {
-            prog.push(match rng.below(6) {
-                0 => nop(),
-                1 => mov_r_imm32(rng.below(4) as u8, rng.below(9) as u32),
-                2 => inc_r(rng.below(4) as u8),
-                3 => ins(&[0xcc]),
-                4 => syscall(),
-                _ => nop(),
-            });
+        let plen;
+        if callret {
+            // 0: call f ; 1..k: filler ; k+1: ret (top level) ; f: filler ; ret
+            let k = rng.below(3) as usize;
+            let fl = rng.below(3) as usize;
+            let f = k + 2;
+            prog.push(call(f));
+            for _ in 0..k {
+                prog.push(if rng.chance(1, 2) { nop() } else { inc_r(rng.below(4) as u8) });
+            }
+            prog.push(ret());
+            for _ in 0..fl {
+                prog.push(if rng.chance(1, 2) { nop() } else { mov_r_imm32(rng.below(4) as u8, rng.below(9) as u32) });
+            }
+            if rng.chance(1, 4) {
+                prog.push(push_r(3));
+                prog.push(pop_r(1));
+            }
+            prog.push(ret());
+            plen = prog.len();
+        } else {
+            plen = 2 + rng.below(5) as usize;
+            for _ in 0..plen {
+                prog.push(match rng.below(6) {
+                    0 => nop(),
+                    1 => mov_r_imm32(rng.below(4) as u8, rng.below(9) as u32),
+                    2 => inc_r(rng.below(4) as u8),
+                    3 => ins(&[0xcc]),
+                    4 => syscall(),
+                    _ => nop(),
+                });
+            }
         }
         let (code, _) = assemble(&prog, CODE);
         emit_new(out, &code, CODE);
         out.push(setregs_at(&mut rng, CODE));
-        let mns = ["Nop", "Mov", "Inc", "Int3", "Syscall"];
+        if callret {
+            out.push("stack 200".into());
+        }
+        let mns: &[&str] = if callret { &["Call", "Ret", "Ret", "Nop", "Mov", "Inc", "Push", "Pop"] } else { &["Nop", "Mov", "Inc", "Int3", "Syscall"] };
         let nh = rng.below(7);
         for id in 0..nh {
             let phase = if rng.chance(1, 2) { "before" } else { "after" };
-            let mn = rng.pick(&mns);
-            let oc = rng.pick(&outcomes);
+            let mn = rng.pick(mns);
+            let oc = if callret && rng.chance(1, 2) { &"unhandled" } else { rng.pick(&outcomes) };
             let edit = if rng.chance(1, 3) {
                 format!("{}={:x}", rng.pick(&["RAX", "RCX", "RSI", "R9"]), rng.below(100))
             } else {
